@@ -322,6 +322,31 @@ fn check(c: &CliCase) -> CaseReport {
             }
         }
     }
+    // the query given as several arguments (`any 1 + 2`): the program joins them with single blanks, so a
+    // query whose words are separated by exactly one blank must print the same either way
+    {
+        let pieces: Vec<&str> = q.split(' ').collect();
+        if pieces.len() >= 2 && pieces.iter().all(|p| !p.is_empty()) && q.len() % 4 == 0 {
+            if let Ok((want, _, _)) = expected_stdout(cli_db(), q, false) {
+                let mut cmd = Command::new(&e.any);
+                cmd.env("XDG_DATA_HOME", &e.xdg).env("TERM", "dumb").env("NO_COLOR", "1").env_remove("RUST_LOG").env_remove("RUST_BACKTRACE");
+                cmd.arg("--");
+                for p in &pieces {
+                    cmd.arg(p);
+                }
+                watch_begin(q);
+                let outp = cmd.output();
+                watch_end();
+                if let Ok(outp) = outp {
+                    let got = String::from_utf8_lossy(&outp.stdout).to_string();
+                    if !outp.status.success() || got != want {
+                        return CaseReport::fail(q, "split-arguments:stdout-differs", json!({"query": q, "arguments": pieces, "stdout": got, "expected": want, "status": format!("{:?}", outp.status)}));
+                    }
+                    all_classes.push("query-as-several-arguments");
+                }
+            }
+        }
+    }
     // --describe: the default-mode lines, then (iff the library recorded descriptions) a header and one
     // line per description, in the library's order, each starting with the quoted phrase and the constant's text
     let lib = crate::tool::run_full(cli_db(), q, true);
